@@ -99,6 +99,7 @@ def run(ctx):
     from props import casex
     casex.case_stage(ctx, "C03")
     casex.query_stage(ctx)
+    casex.trim_stage(ctx)
     known = ctx.finding_keys()
     c04 = [f for f in load_findings()["findings"] if f["property"] == "C04"]
     bad_triples = {tuple(t) for f in c04 for t in f.get("triples", [])}
